@@ -62,7 +62,8 @@ def is_framed(node):
         'never',
     }:
         return 'annots' in node
-    return False
+    # any other primitive application (constant, chest, Ticket, Lambda_rec, ...) needs a frame in argument position
+    return bool(node.get('args')) or bool(node.get('annots'))
 
 
 def is_complex(node):
